@@ -13,10 +13,13 @@ RunOK(x) ==
   LET p == Parse(x.toks) IN
   IF RunRejects(p) THEN x.code = 1 /\ x.nsent = 0 /\ x.outlen = 0          \* refused with an error, nothing ran
   ELSE
-    /\ x.code # 1 /\ (Ends(p) => x.code = 0) /\ (~Ends(p) => x.code = -1)  \* -1: had to be stopped
+    /\ (x.late \/ (x.code # 1 /\ (Ends(p) => x.code = 0) /\ (~Ends(p) => x.code = -1)))  \* -1: had to be stopped
     /\ (x.nsent > 0 => IF p.data /\ ~x.dataempty THEN x.alleq ELSE x.allempty)   \* exactly the bytes given (an empty payload: empty messages)
     /\ CASE Mode(p) \in {"send", "sendrecv"} ->
-              IF Sends(p) >= 0 THEN x.nsent = Sends(p) ELSE x.nsent >= x.killat   \* the number of times requested
+              \* the number of times requested (a peer that got connected to a binding macat only after it had started
+              \* sending - a busy machine - may have missed some: the run decides nothing then)
+              IF x.late THEN (Sends(p) >= 0 => x.nsent <= Sends(p))
+              ELSE IF Sends(p) >= 0 THEN x.nsent = Sends(p) ELSE x.nsent >= x.killat
          [] Mode(p) = "reply" -> x.nsent = x.nreq                           \* one answer per request
          [] OTHER -> x.nsent = 0
     /\ (p.fmt \in {"", "no"} => x.outlen = 0)
